@@ -999,13 +999,15 @@ def gen_int(rng):
     alpha = list("0123456789") * 3 + [" ", "\t", "\n", "+", "-", "_", "x", ".", "²", "٣", "①", "７", "\u00a0", "\u2003", "\u0085",
                                       "߂", "𝟘", "੩", "\x1c", "๓", "〇", "Ⅷ", "½", "૭", "\x0b", "\x7f", "e", "٠", "\u3000", "\u2028"]
     r = rng.random()
-    if r < 0.01:
-        n = rng.choice([4299, 4300, 4301, 4302, 640, 641])
-        s = rng.choice("0123456789٣") * n
+    if r < 0.002:
+        # the 4300-digit limit of int(): leading zeros count as digits, the value stays small
+        n = rng.choice([4299, 4300, 4301, 4302])
+        tail = "".join(rng.choice("0123456789\u0663") for _ in range(12))
+        s = rng.choice("0\u0660") * (n - 12) + tail
         if rng.random() < 0.3:
-            s = "0" * 5 + s[5:]
-        if rng.random() < 0.2:
             s = s[:10] + "_" + s[10:]
+        if rng.random() < 0.3:
+            s = " +" + s + " "
         return {"op": "int", "s": s}
     return {"op": "int", "s": "".join(rng.choice(alpha) for _ in range(rng.randint(0, 7)))}
 
